@@ -485,6 +485,9 @@ func (f *fn) expr(e ast.Expr) ex {
 			return f.lift1(r, "(!%s)", boolTy)
 		case token.SUB:
 			return f.lift1(r, "(-%s)", r.t)
+		case token.AND:
+			// &x: a non-nil pointer to (a copy of) the value — pointers to values are options here, nothing is mutated through them
+			return f.lift1(r, "(some %s)", ty{"(Option " + r.t.lean + ")", "*" + r.t.gon})
 		}
 	case *ast.BinaryExpr:
 		return f.binary(x)
